@@ -78,4 +78,10 @@ MUTANTS = [
     {"pid": "C19", "name": "change-stamps", "edits": [("ioflo/base/storing.py", "        for k,v in kwa.items():\n            setattr(self._data, k, v)\n        return self\n\n    def update", "        for k,v in kwa.items():\n            setattr(self._data, k, v)\n        self.stampNow()\n        return self\n\n    def update")]},
     {"pid": "C19", "name": "gulp-accepts-none", "edits": [("ioflo/base/storing.py", "        if elem is not None:\n            self.append(elem)", "        self.append(elem)")]},
     {"pid": "C19", "name": "pull-from-wrong-end", "edits": [("ioflo/base/storing.py", "    pull = deque.popleft  # alias", "    pull = deque.pop  # alias")]},
+    # C02
+    {"pid": "C02", "name": "retime-from-run-time", "edits": [("ioflo/base/skedding.py", "                                                  reckon[0] + reckon[1] * reckon[2],", "                                                  stamp + tasker.period,")]},
+    {"pid": "C02", "name": "due-comparison-ge", "edits": [("ioflo/base/skedding.py", "                        if retime > stamp + slop: #not time yet", "                        if retime >= stamp - slop and retime > 0: #not time yet")]},
+    {"pid": "C02", "name": "aborted-tasker-rescheduled", "edits": [("ioflo/base/skedding.py", "                                if status == ABORTED: #aborted so abort tasker\n                                    aborted.append((tasker, stamp, period))", "                                if status == ABORTED and False: #aborted so abort tasker\n                                    aborted.append((tasker, stamp, period))")]},
+    {"pid": "C02", "name": "float-accumulation-restored", "edits": [("ioflo/base/skedding.py", "                    self.stamp = start + ticks * self.period", "                    self.stamp += self.period"), ("ioflo/base/skedding.py", "        slop = self.period * 1e-9  # tolerance for float rounding in comparison", "        slop = 0.0")]},
+    {"pid": "C02", "name": "period-bid-ignored-until-restart", "edits": [("ioflo/base/skedding.py", "                                    if reckon is None or reckon[2] != tasker.period:", "                                    if reckon is None:")]},
 ]
